@@ -66,6 +66,8 @@ def _worker(prop, ob_name, params, tier):
             stop_on_cex=False,
             want_witness=ob.witnesses,
             max_cex=8,
+            known_prefixes=tuple(k["match"].get("label_prefix", "\0") for k in load_known(prop)
+                                 if k.get("status") == "known" and k["match"].get("ob", ob_name) == ob_name),
         )
         out = {
             "ob": ob_name,
@@ -300,7 +302,7 @@ def finish(prop, tier, seed, mod, obs, results, t0, args):
     for (obn, params, models, c), out in zip(cex_jobs, outs[len(wit_jobs):]):
         o = out[0]
         sig = f"{obn}:{c['label']}"
-        k = next((k for k in known if _matches(k, obn, c["label"])), None)
+        k = next((k for k in known if _matches(k, obn, c["label"], params)), None)
         if o.get("ok") is False:
             validated += 1
             if k is not None and k.get("status") == "known":
@@ -342,8 +344,11 @@ def finish(prop, tier, seed, mod, obs, results, t0, args):
     return 0
 
 
-def _matches(k, ob_name, label):
+def _matches(k, ob_name, label, params=None):
     m = k.get("match", {})
+    for pk, pv in m.get("params", {}).items():
+        if params is None or params.get(pk) != pv:
+            return False
     if "ob" in m and m["ob"] != ob_name:
         return False
     if "label_prefix" in m and not str(label).startswith(m["label_prefix"]):
